@@ -58,6 +58,9 @@ def run_case(key, case_idx, tier, seed):
             else:
                 params[pname] = eng.sym_of_kind(kind, pname)
         eng.entry_params = dict(params)
+        for pv in params.values():
+            if isinstance(pv, V) and pv.extra and 'facts' in pv.extra:
+                st.pc.extend(pv.extra['facts'])
         if c.setup:
             c.setup(eng, st, params)
         st.env = dict(params)
@@ -328,6 +331,13 @@ def extract_model(eng, c, case, m):
     for pname, v in eng.entry_params.items():
         if isinstance(v, V) and v.k in ('int', 'real', 'bool'):
             vals[pname] = model_value(m, v.z)
+        elif isinstance(v, V) and v.k == 'str' and v.py is None:
+            vals[pname] = {'__str__': {'chars': model_value(m, v.extra['chars']),
+                                       'u8': model_value(m, v.extra['u8']),
+                                       'has_nul': model_value(m, v.extra['has_nul'])}}
+        elif isinstance(v, V) and v.k == 'bytes' and v.py is None:
+            vals[pname] = {'__bytes__': {'len': model_value(m, v.extra['len']),
+                                         'has_nul': model_value(m, v.extra['has_nul'])}}
         elif isinstance(v, V) and v.k in ('ref', 'class'):
             cls = v.cls if v.k == 'ref' else v.py
             oid = v.oid if v.k == 'ref' else 'cls:' + v.py
@@ -472,6 +482,20 @@ def native_check(c, case, model, clause_names):
                 args.append(None)
             elif kind == 'cls':
                 continue
+            elif kind == 'str':
+                sv = synth_str((mv or {}).get('__str__', {}))
+                if sv is None:
+                    return 'no-replay', 'no concrete string for %r' % (mv,)
+                args.append(sv)
+            elif kind == 'bytes':
+                bm = (mv or {}).get('__bytes__', {})
+                n = int(bm.get('len', 0))
+                if n > 10 ** 6:
+                    return 'no-replay', 'bytes too long'
+                bv = (b'\x00' if bm.get('has_nul') and n > 0 else b'a') * n
+                if bm.get('has_nul') and n == 0:
+                    return 'no-replay', 'inconsistent bytes model'
+                args.append(bv)
             else:
                 return 'no-replay', 'parameter %s of kind %s' % (pname, kind)
         tt_pre = {}
@@ -546,6 +570,14 @@ def native_check(c, case, model, clause_names):
                 params[pname] = V('ref', cls=kind[4:], oid=pname)
             elif kind == 'none':
                 params[pname] = NONE
+            elif kind == 'str':
+                a = args[list(case).index(pname)]
+                params[pname] = V('str', py=None, extra={
+                    'chars': z3.IntVal(len(a)), 'u8': z3.IntVal(len(a.encode('utf-8'))),
+                    'has_nul': z3.BoolVal('\x00' in a), 'ascii': z3.BoolVal(a.isascii())})
+            elif kind == 'bytes':
+                a = args[list(case).index(pname)]
+                params[pname] = V('bytes', py=a)
         eng.entry_params = params
         pre_objs, post_objs = {}, {}
         for pname, (o, clsname) in objs.items():
@@ -621,6 +653,24 @@ def native_check(c, case, model, clause_names):
         return 'no-replay', traceback.format_exc()[-800:]
 
 
+def synth_str(m):
+    """a concrete str with the model's char count, utf-8 length and NUL flag"""
+    n, u8, nul = int(m.get('chars', 0)), int(m.get('u8', 0)), bool(m.get('has_nul'))
+    if n > 10 ** 5 or u8 < n or u8 > 4 * n or (nul and n == 0):
+        return None
+    chars = []
+    if nul:
+        chars.append('\x00')
+    extra = u8 - n
+    for _ in range(n - len(chars)):
+        k = min(extra, 3)
+        chars.append(['a', '\u00e9', '\u20ac', '\U0001F600'][k])
+        extra -= k
+    if extra != 0:
+        return None
+    return ''.join(chars)
+
+
 def conc(x, kind):
     if kind == 'int':
         return vint(int(x))
@@ -646,6 +696,8 @@ def conc_auto(x):
         return vlist([conc_auto(i) for i in x])
     if isinstance(x, str):
         return vstr(x)
+    if isinstance(x, (bytes, bytearray)):
+        return V('bytes', py=bytes(x))
     return V('obj', oid=repr(x)[:60])
 
 
